@@ -454,7 +454,16 @@ class Engine:
                         break
                 if found is None:
                     raise Unsupported(f"{target}: nested def {p} not found")
-                val = Closure(found, val.env, mi, qual, None)
+                # sibling helper functions defined in the same enclosing function are visible to the nested function (an
+                # extract-helper refactoring inside the enclosing function must not stop the check); other locals of the
+                # enclosing function are free variables the contract supplies
+                env2 = Env(val.env)
+                for st in val.node.body:
+                    if isinstance(st, ast.FunctionDef) and st is not found:
+                        sib = Closure(st, env2, mi, f"{parts[0]}.{st.name}", None)
+                        sib.allow_inline = True
+                        env2.set(st.name, sib)
+                val = Closure(found, env2, mi, qual, None)
             else:
                 raise Unsupported(f"{target}: cannot resolve {p}")
         if not isinstance(val, Closure):
